@@ -65,6 +65,7 @@ const (
 
 	fmtErrReturn            = "if err != nil {\n\treturn err\n}"
 	fmtAddSizeToAt          = "{\n\ttmp := (%ASGN)\n\tat += tmp.Size()\n}\n"
+	fmtCheckAt              = "if at > len(buf) {\n\treturn io.ErrUnexpectedEOF\n}\n"
 	fmtAdd4PlusLenToAt      = "at += 4 + len(%ASGN)"
 	fmtAddSizeToBodyLen     = "{\n\ttmp := (%ASGN)\n\tbodyLen += tmp.Size()\n}\n"
 	fmtAdd4PlusLenToBodyLen = "bodyLen += 4 + len(%ASGN)"
@@ -335,11 +336,11 @@ func (f File) typeByteReaders(gs GenerateSettings) map[string]string {
 
 	for _, st := range f.Structs {
 		out[st.Name] = mustMakeFormat(st.Namespace, gs) + fmtAddSizeToAt
-		out[st.Name+hintSafeKey] = makeFormat(st.Namespace, gs) + fmtErrReturn + "\n" + fmtAddSizeToAt
+		out[st.Name+hintSafeKey] = makeFormat(st.Namespace, gs) + fmtErrReturn + "\n" + fmtAddSizeToAt + fmtCheckAt
 	}
 	for _, msg := range f.Messages {
 		out[msg.Name] = mustMakeFormat(msg.Namespace, gs) + fmtAddSizeToAt
-		out[msg.Name+hintSafeKey] = makeFormat(msg.Namespace, gs) + fmtErrReturn + "\n" + fmtAddSizeToAt
+		out[msg.Name+hintSafeKey] = makeFormat(msg.Namespace, gs) + fmtErrReturn + "\n" + fmtAddSizeToAt + fmtCheckAt
 	}
 	for _, union := range f.Unions {
 		uout := union.typeByteReaders(gs)
@@ -353,17 +354,17 @@ func (f File) typeByteReaders(gs GenerateSettings) map[string]string {
 func (u Union) typeByteReaders(settings GenerateSettings) map[string]string {
 	out := map[string]string{}
 	out[u.Name] = mustMakeFormat(u.Namespace, settings) + fmtAddSizeToAt
-	out[u.Name+hintSafeKey] = makeFormat(u.Namespace, settings) + fmtErrReturn + "\n" + fmtAddSizeToAt
+	out[u.Name+hintSafeKey] = makeFormat(u.Namespace, settings) + fmtErrReturn + "\n" + fmtAddSizeToAt + fmtCheckAt
 	for _, ufd := range u.Fields {
 		if ufd.Struct != nil {
 			st := ufd.Struct
 			out[st.Name] = mustMakeFormat(st.Namespace, settings) + fmtAddSizeToAt
-			out[st.Name+hintSafeKey] = makeFormat(st.Namespace, settings) + fmtErrReturn + "\n" + fmtAddSizeToAt
+			out[st.Name+hintSafeKey] = makeFormat(st.Namespace, settings) + fmtErrReturn + "\n" + fmtAddSizeToAt + fmtCheckAt
 		}
 		if ufd.Message != nil {
 			msg := ufd.Message
 			out[msg.Name] = mustMakeFormat(msg.Namespace, settings) + fmtAddSizeToAt
-			out[msg.Name+hintSafeKey] = makeFormat(msg.Namespace, settings) + fmtErrReturn + "\n" + fmtAddSizeToAt
+			out[msg.Name+hintSafeKey] = makeFormat(msg.Namespace, settings) + fmtErrReturn + "\n" + fmtAddSizeToAt + fmtCheckAt
 		}
 	}
 	return out
